@@ -465,7 +465,10 @@ def check_c04(rec, names, Model, seed):
             # every read while evaluating a feasible period addresses exactly t-lag / t+lead inside the span
             if feasible:
                 for t in (p, p - L):
-                    ev = run_generated(Model, all_names, span, t, data_table(all_names, L, 0, seed))
+                    try:
+                        ev = run_generated(Model, all_names, span, t, data_table(all_names, L, 0, seed))
+                    except (ZeroDivisionError, OverflowError):
+                        continue  # a literal divided by a literal zero etc.: Python semantics, nothing was read out of place
                     for e in ev:
                         if e[0] in ('r', 'w'):
                             raw, pos = e[2], e[3]
@@ -710,6 +713,11 @@ def check_c15(rec, names, symbols, seed):
                         raise Mis('c15-converter-output-not-verbatim', converter=conv.__name__, line=line)
                     pos = q
         M = fsic.build_model(symbols, converter=conv)
+        # the class carries the text its converter produced, whatever was built from the same symbols before or after
+        if M.CODE != text:
+            raise Mis('c15-CODE-differs-from-definition-text', converter=conv.__name__)
+        if fsic.build_model(symbols).CODE != fsic.build_model_definition(symbols):
+            raise Mis('c15-CODE-differs-from-definition-text', converter='default-after-' + conv.__name__)
         if rec['reject'] == 'none' and not named:
             L = max(M.LAGS + M.LEADS + 2, 2)
             tab = data_table(all_names, L, 1, seed)
@@ -766,7 +774,10 @@ def process(rec, payload, out):
             if 'c04' in checks:
                 did += check_c04(rec, names, Model, seed)
             if 'c20' in checks:
-                did += check_c20(rec, names, symbols, Model, seed)
+                try:
+                    did += check_c20(rec, names, symbols, Model, seed)
+                except (ZeroDivisionError, OverflowError):
+                    pass  # a literal divided by a literal zero etc. (Python semantics; C01 compares such programs with the reference)
             if layout != 'canon':
                 continue
             if 'c14' in checks:
